@@ -237,6 +237,22 @@ class System:
         imp = self.imp
 
         class Auto(cls):
+            _initial = None
+
+            def __getitem__(self, key):
+                # what the driver loaded for this step must be what every
+                # request sees, from the very first request on
+                if self._depth == 0 and self._initial is None:
+                    self._initial = {k: id(v) for k, v in self.data.items()}
+                v = super().__getitem__(key)
+                for k, oid in self._initial.items():
+                    if k not in self.data:
+                        _PROBLEMS.append(('F1:driver-input-evicted', k, key))
+                    elif id(self.data[k]) != oid:
+                        _PROBLEMS.append(('F1:driver-input-replaced', k,
+                                          key))
+                return v
+
             def freeze_data(self):
                 super().freeze_data()
                 for k, w in imp:
@@ -247,7 +263,10 @@ class System:
         acore.AurelCore = Auto
         try:
             with gc.quiet():
-                custom = {'myvar': lambda rel: rel['gammadet'] * 2.0}
+                # deep custom variable: many calculations (and clean-ups)
+                # happen while it is evaluated
+                custom = {'myvar': lambda rel: rel['s_RicciS'] * 2.0
+                          + rel['Ktrace']}
                 # dtconserved is a tuple of differently shaped arrays, which
                 # over_time cannot tabulate (not a clean-up matter)
                 atime.over_time(table, self.fd,
